@@ -4,7 +4,7 @@
    ChecksumFile.ReadAt with len(b)=len, cap(b)=cap; write_at/append/size_of/scrub transcribe WriteAt/append/
    Size/Scrub; run_ck / run_plain run an op sequence on the checksummed file / on an ordinary file. *)
 From Coq Require Import List NArith ZArith.
-From BLB Require Import Lib.CRC C08.CRCTab C08.Model C08.Proofs C08.Proofs2 C08.Refine C08.Refine2.
+From BLB Require Import Lib.CRC C08.CRCTab C08.Model C08.Proofs C08.Proofs2 C08.Refine C08.Refine2 C08.Tamper.
 Import ListNotations.
 Open Scope N_scope.
 
@@ -62,3 +62,22 @@ Theorem ckfile_detects_burst :
     snd (scrub r') = E_CORRUPT.
 Proof. exact detects_burst_abs_lemma. Qed.
 Print Assumptions ckfile_detects_burst.
+
+(* [PARTIAL] the same for the model's own TamperXor operation, the raw xor the harness applies to the real file. On a
+   sound file of bytes below 256, xor-ing any non-zero pattern of at most 32 bits at any raw bit position is one burst
+   in block k, tamper_xor_is_burst, hence every ReadAt touching block k returns the corruption error and only the
+   logical content before block k, other reads are unchanged and Scrub reports corruption. Partial only in scope, the
+   five bytes starting at byte bit div 8, which a 32-bit pattern shifted by bit mod 8 can reach, must lie inside the
+   stored bytes of block k, so bursts starting in the last four stored bytes of a block are covered by
+   ckfile_detects_burst but not linked to this operation *)
+Theorem ckfile_tamper_xor_detected_partial :
+  forall r bit pat k,
+    Inv_raw r -> Forall (fun x => x < 256) r -> 0 < pat -> pat < 2 ^ 32 ->
+    BL * k <= bit / 8 -> bit / 8 + 5 <= BL * k + lenN (chunk_of r k) ->
+    let r' := tamper_xor r bit pat in
+    (forall off len cap, touches k off len ->
+        read_at r' off len cap = (take (k * DL - off) (drop off (abs r)), E_CORRUPT)) /\
+    (forall off len cap, ~ touches k off len -> read_at r' off len cap = read_at r off len cap) /\
+    snd (scrub r') = E_CORRUPT.
+Proof. exact tamper_xor_detected_lemma. Qed.
+Print Assumptions ckfile_tamper_xor_detected_partial.
